@@ -87,7 +87,9 @@ def kindHead : Nat → Bytes
   | 12 => [1, 0x54] | 13 => [1, 0x55] | 14 => [1, 0x76] | 15 => [1, 0x52] | _ => []
 
 theorem tyKey_head (t : Ty) : ∃ r, tyKey t = 1 :: 0x74 :: r := by
-  cases t <;> simp [tyKey]
+  cases t with
+  | callable ts => cases ts <;> simp [tyKey]
+  | _ => simp [tyKey, rxTyKey]
 
 theorem mk_head (x : Val) (h : cmp x = true) : ∃ r, mk x = kindHead (kind x) ++ r := by
   cases x <;> simp [mk, mark, kb, kind, kindHead, undefKey, defaultKey, boolKey, intKey, floatKey, strMark, timespanKey, timestampKey]
